@@ -60,10 +60,14 @@ pub struct Knobs {
     pub node_cap: usize,
     /// float regime (see Alphabet::Float): also scales whole predicate rows by 1e3 / 1e6 now and then
     pub float_regime: bool,
-    /// float regime: rows may also be scaled DOWN (1e-3 / 1e-6). Not for C06: the library's containment
-    /// tolerance is absolute (1e-8 on the raw row), so on a tiny row it accepts points far outside in
-    /// normalized terms, which is "within the documented tolerance" for C05 but defeats effectiveness
+    /// float regime: rows may also be scaled DOWN (1e-3 / 1e-6). (Was switched off for C06 until fix
+    /// b82bb9b: the absolute containment tolerance let empty children inherit witnesses on tiny rows.)
     pub float_downscale: bool,
+    /// float regime, C04 runs only: rows of affine maps (layers) are rescaled as well. Composing layers
+    /// 1e9 apart in scale puts coefficients below the LP solver's pivot tolerance into one predicate row;
+    /// the solver then misjudges or (before fix 0a502e9) panics. C04 judges panics and shapes, not
+    /// function equality, so these inputs are in scope there and nowhere else.
+    pub float_affscale: bool,
     /// float regime, a quarter of the runs: three predicate rows in four are rescaled and one in ten
     /// is a zero row (a path then mixes constant predicates with rows 1e6..1e12 apart in norm)
     pub float_stress: bool,
@@ -111,7 +115,8 @@ pub fn gen_knobs_depth(rng: &mut Prng, focus: &str, deep: bool) -> Knobs {
         pipeline_pm: *rng.pick(&[0, 0, 100, 300]),
         node_cap: if deep { *rng.pick(&[300, 600, 900]) } else { *rng.pick(&[60, 150, 300]) },
         float_regime,
-        float_downscale: float_regime && focus != "C06" && rng.chance(1, 2),
+        float_downscale: float_regime && rng.chance(1, 2),
+        float_affscale: float_regime && focus == "C04" && rng.chance(1, 2),
         float_stress: float_regime && rng.chance(1, 3),
     }
 }
@@ -128,7 +133,18 @@ pub fn gen_aff(rng: &mut Prng, k: &Knobs, indim: usize, outdim: usize) -> AffLit
     // scales mixes magnitudes 1e9 apart *within* one predicate row, and a coefficient below the LP
     // solver's 1e-8 relative tolerance is noise to it - regions that exist only thanks to such a
     // coefficient are "thinner than the solver's tolerance" in every practical sense)
-    let bias: Vec<f64> = (0..outdim).map(|_| k.alphabet.draw(rng)).collect();
+    let mut bias: Vec<f64> = (0..outdim).map(|_| k.alphabet.draw(rng)).collect();
+    if k.float_affscale {
+        for i in 0..outdim {
+            if rng.chance(1, 4) {
+                let sc = float_scale(rng, k);
+                for v in mat[i].iter_mut() {
+                    *v *= sc;
+                }
+                bias[i] *= sc;
+            }
+        }
+    }
     AffLit { indim, mat, bias }
 }
 
@@ -333,7 +349,21 @@ pub fn gen_pipeline(rng: &mut Prng, k: &Knobs, slot: usize) -> Op {
     let mut budget = 6usize; // total number of activation neurons
     for _ in 0..n_blocks {
         let h = 1 + rng.below(3);
-        layers.push(LayerLit::Linear { aff: gen_aff(rng, k, cur, h) });
+        let mut aff = gen_aff(rng, k, cur, h);
+        if k.float_regime && h >= 2 && rng.chance(1, 3) {
+            // (float regime only: three layers of such numbers no longer multiply exactly)
+            // neuron j = a tiny, negated copy of neuron i, shifted by a hair: the activation regions
+            // "both off" are empty by `gap`, "both on" is a slab of that width - on a row whose norm is
+            // 1e-3 .. 1e-5 of its twin's (all factors are powers of two: exact in either regime)
+            let i = rng.below(h);
+            let j = (i + 1 + rng.below(h - 1)) % h;
+            let sc = *rng.pick(&[0.0009765625, 0.0001220703125, 0.00000762939453125]);
+            let gap = *rng.pick(&[0.0009765625, 0.000244140625, 0.00006103515625]);
+            let row: Vec<f64> = aff.mat[i].iter().map(|v| -sc * v).collect();
+            aff.mat[j] = row;
+            aff.bias[j] = -sc * aff.bias[i] + sc * gap;
+        }
+        layers.push(LayerLit::Linear { aff });
         cur = h;
         for row in 0..h {
             if budget == 0 {
